@@ -8,17 +8,36 @@ module's namespace.
 import os
 
 
+from crosshair.tracers import NoTracing
+
+_cache = {}
+
+
+def clear_cache() -> None:
+    """The replay driver changes the environment between cases of one process."""
+    _cache.clear()
+
+
 def P(name: str, default: int = 0) -> int:
-    return int(os.environ.get("VERIF_" + name, default))
+    # untraced: dict / os.environ operations are very slow under CrossHair's opcode tracing
+    with NoTracing():
+        v = _cache.get(name)
+        if v is None:
+            e = os.environ.get("VERIF_" + name)
+            v = (int(e),) if e is not None else (None,)
+            _cache[name] = v
+        return default if v[0] is None else v[0]
 
 
 def PS(name: str, default: str = "") -> str:
-    return os.environ.get("VERIF_" + name, default)
+    with NoTracing():
+        e = os.environ.get("VERIF_" + name)
+        return default if e is None else e
 
 
 def twin() -> bool:
     """Reachability twin: the harness forces its verdict to False when this is on."""
-    return os.environ.get("VERIF_TWIN", "0") == "1"
+    return P("TWIN", 0) == 1
 
 
 def fin(ok) -> bool:
@@ -43,3 +62,21 @@ def concrete_section():
     except Exception:
         pass
     return contextlib.nullcontext()
+
+
+def sel(x, n: int) -> int:
+    """Realise a symbolic selector 0 <= x < n into a concrete int by binary search (log2(n) forks
+    instead of n equality tests).  Exhaustive: every value is reached on exactly one path."""
+    lo, hi = 0, n
+    while hi - lo > 1:
+        mid = (lo + hi) // 2
+        if x < mid:
+            hi = mid
+        else:
+            lo = mid
+    return lo
+
+
+def selb(b) -> bool:
+    """Realise a symbolic bool."""
+    return True if b else False
